@@ -166,14 +166,46 @@ func RewriteFile(path string, src []byte, st *Stats) ([]byte, error) {
 // package into outDir and returns the path of an overlay JSON file for the
 // requested level.
 func Build(repo, outDir, level string) (overlayPath string, st Stats, err error) {
+	return BuildFrom(repo, repo, outDir, level)
+}
+
+// BuildFrom instruments the sources found in src but mounts them, through the
+// overlay, at the paths of repo (the directory the go.mod replace directive
+// points to). With src == repo this is the normal case; with another src
+// (a scratch worktree) the same build checks that tree without touching repo.
+func BuildFrom(src, repo, outDir, level string) (overlayPath string, st Stats, err error) {
 	st.Sites = map[string]int{}
 	if err = os.MkdirAll(outDir, 0o755); err != nil {
 		return
 	}
 	replace := map[string]string{}
+	if src != repo {
+		// files of repo that do not exist in src are deleted by the overlay
+		if ents, e := os.ReadDir(repo); e == nil {
+			for _, e := range ents {
+				n := e.Name()
+				if !e.IsDir() && strings.HasSuffix(n, ".go") && !strings.HasSuffix(n, "_test.go") {
+					if _, err := os.Stat(filepath.Join(src, n)); err != nil {
+						replace[filepath.Join(repo, n)] = ""
+					}
+				}
+			}
+		}
+		if level == LevelC {
+			// plain build of another tree: mount its files unmodified
+			if ents, e := os.ReadDir(src); e == nil {
+				for _, e := range ents {
+					n := e.Name()
+					if !e.IsDir() && strings.HasSuffix(n, ".go") && !strings.HasSuffix(n, "_test.go") {
+						replace[filepath.Join(repo, n)] = filepath.Join(src, n)
+					}
+				}
+			}
+		}
+	}
 	if level != LevelC {
 		var ents []os.DirEntry
-		if ents, err = os.ReadDir(repo); err != nil {
+		if ents, err = os.ReadDir(src); err != nil {
 			return
 		}
 		for _, e := range ents {
@@ -181,11 +213,11 @@ func Build(repo, outDir, level string) (overlayPath string, st Stats, err error)
 			if e.IsDir() || !strings.HasSuffix(n, ".go") || strings.HasSuffix(n, "_test.go") {
 				continue
 			}
-			var src, dst []byte
-			if src, err = os.ReadFile(filepath.Join(repo, n)); err != nil {
+			var srcB, dst []byte
+			if srcB, err = os.ReadFile(filepath.Join(src, n)); err != nil {
 				return
 			}
-			if dst, err = RewriteFile(n, src, &st); err != nil {
+			if dst, err = RewriteFile(n, srcB, &st); err != nil {
 				return
 			}
 			p := filepath.Join(outDir, "rw_"+n)
